@@ -291,8 +291,14 @@ type scopeT struct {
 	F float64 `json:",string"`
 	M map[string]scopeT
 	L []scopeT
-	B []byte `json:",format:base16"`
 	Z any
+}
+
+// scopeF additionally has a format-tagged field (only usable with ExperimentalSupportFormatTag).
+type scopeF struct {
+	A int    `json:"a"`
+	S int64  `json:",string"`
+	B []byte `json:",format:base16"`
 }
 
 func snapshot(o jsonv2.Options, ks []key) string {
@@ -312,7 +318,7 @@ func scoping(r *evid.Run, ks []key) {
 		`{"a":1}`, `{"S":"12","F":"1.5"}`, `{"S":"x"}`, `{"S":12}`, `{"F":"1e999"}`, `{"a":"no"}`, `{"M":{"k":{"S":"bad"}}}`, `{"L":[{"a":1},{"S":"bad"}]}`, `{"M":{"k":{"a":1}},"a":true}`,
 		`{"B":"zz"}`, `{"B":"00ff"}`, `{"unknown":{"deep":[1,2,{"x":null}]}}`, `{"a":1,"a":2}`, `{"a":1`, `{"Z":{"k":[1,{"j":"v"}]},"S":"3","a":[]}`, `[1]`,
 	}
-	var n int64
+	var n, nOK, nErr int64
 	for bi, base := range baseSets {
 		for ei, extra := range extraSets {
 			for _, doc := range docs {
@@ -320,7 +326,17 @@ func scoping(r *evid.Run, ks []key) {
 				dec := jsontext.NewDecoder(strings.NewReader(doc+" 123 "+doc), base...)
 				before := snapshot(dec.Options(), ks)
 				var t scopeT
-				err := jsonv2.UnmarshalDecode(dec, &t, extra...)
+				var tf scopeF
+				var target any = &t
+				if ei == 5 {
+					target = &tf
+				}
+				err := jsonv2.UnmarshalDecode(dec, target, extra...)
+				if err != nil {
+					nErr++
+				} else {
+					nOK++
+				}
 				after := snapshot(dec.Options(), ks)
 				if before != after {
 					r.Violation(fmt.Sprintf("c19|scope-dec|%d|%d|%s", bi, ei, doc), fmt.Sprintf("Decoder options changed by UnmarshalDecode (err=%v): before %s after %s", err, diffSnap(before, after), ""), Case{Part: "scoping", Note: fmt.Sprintf("UnmarshalDecode(%s) base#%d extra#%d", doc, bi, ei)}, nil)
@@ -374,6 +390,7 @@ func scoping(r *evid.Run, ks []key) {
 			r.Violation(fmt.Sprintf("c19|snapshot|%v", single), "an Options value obtained with JoinOptions(enc.Options()) changed after the call returned / the Encoder was reset: "+diffSnap(inside, now), Case{Part: "scoping", Note: "JoinOptions snapshot aliasing"}, nil)
 		}
 	}
+	r.Outcomes(map[string]int64{"scoping: UnmarshalDecode succeeded": nOK, "scoping: UnmarshalDecode failed": nErr})
 	r.Evaluations.Add(n)
 	r.Nontrivial.Add(n)
 	r.Bound("scoping: %d coder base option sets x %d per-call option sets x %d documents (errors at every stage: string-/format-tagged fields, nested, unknown, duplicate, syntax) for UnmarshalDecode and 5 values for MarshalEncode: every option key of the coder identical before and after; JoinOptions snapshots do not alias live coder options", len(baseSets), len(extraSets), len(docs))
